@@ -61,6 +61,14 @@ def _worker(conn, harness_name, cfg, tier, repo, seed):
         conn.close()
 
 
+def _died(code):
+    """A worker that was killed by a signal (the kernel's OOM killer, an abort inside the native solver) exhausted a
+    resource: the item is inconclusive, like a time-out.  A Python-level exit without a result is a harness error."""
+    if code is not None and code < 0:
+        return "timeout", "worker killed by signal %d (native solver ran out of memory or aborted)" % (-code)
+    return "err", "worker exited with code %s without a result" % code
+
+
 def run_items(harness_name, items, tier, repo, seed, jobs, item_timeout):
     """Run every item in its own forked process; kill on timeout. Returns list of (cfg, status, payload)."""
     ctx = mp.get_context("fork")
@@ -82,14 +90,16 @@ def run_items(harness_name, items, tier, repo, seed, jobs, item_timeout):
                 try:
                     st, payload = pc.recv()
                 except EOFError:
-                    st, payload = "err", "worker died without a result"
-                results[idx] = (cfg, st, payload)
+                    st, payload = None, None
                 p.join(5)
                 if p.is_alive():
                     p.kill()
+                if st is None:
+                    st, payload = _died(p.exitcode)
+                results[idx] = (cfg, st, payload)
                 done.append(idx)
             elif not p.is_alive():
-                results[idx] = (cfg, "err", "worker exited with code %s without a result" % p.exitcode)
+                results[idx] = (cfg,) + _died(p.exitcode)
                 done.append(idx)
             elif time.time() - t0 > to:
                 p.kill()
